@@ -190,6 +190,26 @@ fn rflags_update_roundtrip() -> [u64; 3] {
     [f0.bits(), f1.bits(), f2.bits()]
 }
 
+/// RFLAGS accessors inlined into a leaf function that keeps its locals in the red zone: the
+/// push/pop inside the accessors must not overwrite them
+#[inline(never)]
+fn rflags_redzone(seed: u64) -> [u64; 3] {
+    use std::ptr::{read_volatile, write_volatile};
+    let mut scratch = [0u64; 16];
+    for i in 0..16 {
+        unsafe { write_volatile(&mut scratch[i], seed.wrapping_add(i as u64)) };
+    }
+    let f0 = rflags::read_raw();
+    unsafe { rflags::write_raw(f0 ^ (1 << 21)) };
+    let f1 = rflags::read();
+    unsafe { rflags::write(RFlags::from_bits_retain(f0)) };
+    let mut sum = 0u64;
+    for i in 0..16 {
+        sum = sum.wrapping_add(unsafe { read_volatile(&scratch[i]) });
+    }
+    [sum, f0, f1.bits()]
+}
+
 /// two read-modify-write updates in one (inlinable) function: the second must see the first
 #[inline(never)]
 fn cr4_two_updates(a: u64, b: u64) -> [u64; 2] {
@@ -791,6 +811,8 @@ pub fn run_regs(out: &mut Out, seed: u64, _n: u64) {
         out.emit(Ev::new("rflags_rt").str("kind", "raw").words("r", &rflags_id_roundtrip()).w("mask", RFlags::all().bits()));
         out.emit(Ev::new("rflags_rt").str("kind", "typed").words("r", &rflags_typed_roundtrip()).w("mask", RFlags::all().bits()));
         out.emit(Ev::new("rflags_rt").str("kind", "update").words("r", &rflags_update_roundtrip()).w("mask", RFlags::all().bits()));
+        let seed = r.next();
+        out.emit(Ev::new("rflags_redzone").w("seed", seed).words("r", &rflags_redzone(seed)));
     }
     {
         use x86_64::registers::mxcsr::{self, MxCsr};
